@@ -70,6 +70,8 @@ def cases(tier, seed):
         for dep in (0, 1, 3):
             out.append({"kind": "energy", "model": model, "depth": dep})
         out.append({"kind": "ice_history", "model": model})
+        if model == "ARZ":
+            out.append({"kind": "ice_history", "model": "ARVZ"})        # the older public name of the same model
     return out
 
 
@@ -84,7 +86,8 @@ def _particle(energy, em, had, depth):
 
 def _cls(model):
     from pyrex import askaryan
-    return {"ARZ": askaryan.ARZAskaryanSignal, "AVZ": askaryan.AVZAskaryanSignal, "ZHS": askaryan.ZHSAskaryanSignal}[model]
+    return {"ARZ": askaryan.ARZAskaryanSignal, "AVZ": askaryan.AVZAskaryanSignal, "ZHS": askaryan.ZHSAskaryanSignal,
+            "ARVZ": getattr(askaryan, "ARVZAskaryanSignal", askaryan.ARZAskaryanSignal)}[model]
 
 
 _ICE = []
